@@ -158,7 +158,7 @@ func setGen(c *common.Ctx) {
 	rr := c.RNG("regen")
 	var batch []common.PCase
 	for p, np := 0, c.Scale(6, 60); p < np; p++ {
-		lines, feats := genRegenCase(rr, c.Scale(150, 400))
+		lines, feats := genRegenCase(rr, c.Scale(150, 400), p)
 		batch = append(batch, common.PCase{Lines: lines, Meta: common.Meta{Nontrivial: true, Features: feats}})
 	}
 	c.Cases(batch, 6)
